@@ -99,10 +99,11 @@ type ContractTable struct {
 	PurePkgs   []string
 	Files      []string
 	Errors     []string
+	InitOnly   map[string][]string // function key -> fields of its receiver type it may initialise
 }
 
 func NewContractTable() *ContractTable {
-	return &ContractTable{Funcs: map[string]*Contract{}, Specs: map[string]*SpecFun{}, Ghosts: map[string]*GhostVar{}}
+	return &ContractTable{Funcs: map[string]*Contract{}, Specs: map[string]*SpecFun{}, Ghosts: map[string]*GhostVar{}, InitOnly: map[string][]string{}}
 }
 
 var targetRe = regexp.MustCompile(`^(?:\((\*?)([^)]+)\)\.)?([A-Za-z0-9_./\-~]+?)((?:\$[0-9]+)*)$`)
@@ -224,6 +225,21 @@ func (ct *ContractTable) LoadFile(path, pkg string, inRepo bool) {
 			curLemma = &Lemma{Name: strings.TrimSpace(name), Pkg: curPkg, Clause: mk(strings.TrimSpace(ex))}
 			ct.Lemmas = append(ct.Lemmas, curLemma)
 			cur, curSpec = nil, nil
+		case "initonly":
+			// initonly (*T).init: f1 f2 ...   fields stored only by this function, which is only
+			// called on objects still under construction (checked by the whole-program scan)
+			tgt, fl, ok := strings.Cut(rest, ":")
+			if !ok {
+				ct.errf(path, ln, "initonly <func>: fields")
+				continue
+			}
+			key, err := normalizeTarget(strings.TrimSpace(tgt), curPkg)
+			if err != nil {
+				ct.errf(path, ln, "%v", err)
+				continue
+			}
+			ct.InitOnly[key] = append(ct.InitOnly[key], strings.Fields(fl)...)
+			cur, curSpec, curLemma = nil, nil, nil
 		case "effectfree":
 			if inRepo {
 				ct.errf(path, ln, "effectfree is only legal in /verif/specs")
